@@ -42,7 +42,7 @@ SOURCES = [('dict', 3, 'pickle'), ('list', 3, 'pickle'), ('dict', 0, 'pickle'),
            ('list', 1, 'copy'), ('dict', 5, 'pickle'), ('list', 4, 'wu')]
 SOURCES3 = [('dict', 3, 'pickle'), ('list', 4, 'pickle')]
 
-EXCLUDED = {'tile_shuffle', 'apply_lazy', 'mapguard', 'single', 'concat_aba', 'intersperse_aba'}
+EXCLUDED = {'tile_shuffle', 'apply_lazy', 'mapguard', 'single', 'concat_aba', 'intersperse_aba', 'catchprefetch'}
 
 
 def alphabet(n, kind):
